@@ -88,7 +88,7 @@ def run_vector(v):
         if kind == 'cf':
             n = len(v['w'])
             f.createDimension('time', n)
-            tv = f.createVariable('time', 'd', ('time',))
+            tv = f.createVariable('time', v.get('store', 'd'), ('time',))
             tv[:] = [w + q / 4. for w, q in zip(v['w'], v['q'])]
             tv.units = '%s since %s' % (v['unit'], v['refstr'])
             if v['cal'] is not None and v['calattr']:
@@ -193,9 +193,17 @@ def gen_vectors(rnd, tier):
         # feb-29 reference dates do not exist in a 365-day calendar
         if cal in ('noleap', '365_day') and (r[1], r[2]) == (2, 29):
             continue
+        # storage type of the time variable: double, or (whole numbers only)
+        # 32- or 64-bit integers, as reanalysis-style files have them
+        store = rnd.choice(['d', 'd', 'i', 'q'])
+        if store != 'd':
+            qs = [0] * len(qs)
+            if max(ws) > 2000000000:
+                store = 'q'
         vs.append({'kind': 'cf', 'cal': cal or 'standard',
                    'calattr': cal is not None, 'unit': unit, 'ref': list(r),
-                   'tzm': tzm, 'refstr': refstr, 'w': ws, 'q': qs})
+                   'tzm': tzm, 'refstr': refstr, 'w': ws, 'q': qs,
+                   'store': store})
     nio = 700 if tier == 'quick' else 8000
     years = [1999, 2000, 2004, 2011, 2023, 2100]
     for i in range(nio):
